@@ -166,11 +166,8 @@ def handle : Handler := fun j a => do
             | .ssSetSlave h => if !w.published.contains h then "C04:A:crash-window:semi-sync-enabled-on-joining-replica-before-it-is-published" else s!"C04:A-destroyed-by:ssSetSlave:other"
             | .publish l =>
               let culprits := reach.filter fun h => w'.slaveEnabled.contains h && !l.contains h
-              if !culprits.isEmpty && culprits.all (fun h => trace.any fun e' => e'.call == .ssDisable h && !e'.ok) then
-                "C04:A:failed-call:replica-evicted-from-the-list-although-disabling-its-semi-sync-failed"
-              else if !culprits.isEmpty && culprits.all (fun h => (trace.any fun e' => e'.call == .ssSetSlave h && e'.ok) &&
-                  (trace.any fun e' => (e'.call == .restartIO h || e'.call == .restartReplica h) && !e'.ok)) then
-                "C04:A:failed-call:replica-dropped-from-the-list-after-its-semi-sync-was-enabled-because-the-restart-failed"
+              if !culprits.isEmpty && culprits.all (fun h => trace.any fun e' => !e'.ok && callHost e'.call == h) then
+                "C04:A:failed-call:replica-left-out-of-the-published-list-while-its-semi-sync-flag-stays-on-after-a-failed-call-on-it"
               else "C04:A-destroyed-by:publish:other"
             | c => s!"C04:A-destroyed-by:{callKind c}:other"
           a := a.violationSig sig j.compress
@@ -184,8 +181,8 @@ def handle : Handler := fun j a => do
             | .publish l =>
               if !ch.dataLag.isEmpty && effWait w' ≥ req cfg (filterOut l ch.dataLag) then
                 "C04:B:published-list-counts-a-data-lagging-replica-the-master-does-not-wait-for"
-              else if trace.any (fun e' => !e'.ok && (match e'.call with | .ssSetMaster h | .ssWaitCount h _ => h == master | _ => false)) then
-                "C04:B:failed-call:enlarged-list-published-although-raising-the-master-ack-count-failed"
+              else if trace.any (fun e' => !e'.ok) then
+                "C04:B:failed-call:list-published-after-a-failed-call-left-the-master-ack-count-below-what-the-list-implies"
               else s!"C04:B-destroyed-by:publish:other:{order}"
             | c => if lowers then s!"C04:B:crash-window:master-ack-count-lowered-before-the-smaller-list-is-published:{order}"
                    else s!"C04:B-destroyed-by:{callKind c}:other:{order}"
